@@ -1,6 +1,8 @@
 package main
 
 import (
+	"strconv"
+	"fmt"
 	"go/types"
 	"go/token"
 	"sort"
@@ -115,6 +117,75 @@ func runC20(c *Ctx) {
 		c.Check(onlyIfAbsent && escFamily(legacyUnesc.X.Name) == "path", "C20.X1-escape-inverse", to.Name+" › legacy httpath", legacyUnesc.In.Pos(), "legacy component used only when http-path is absent, with path unescaping", "legacy httpath component takes precedence over http-path or is unescaped with the wrong family")
 	}
 	legacyPathTranscoder(c, "C20.X1-legacy-path-transcoder")
+	// a port the URL may carry is not turned away: where the conversion tests the port number against a constant
+	// itself (rather than leaving that to the multiaddr library), the lowest and the highest port, 0 and 65535, pass
+	{
+		nCmp := 0
+		var fns []*ssa.Function
+		fns = append(fns, from.SSA)
+		for _, st := range c.CallsInl(from.SSA, Any(), 2) {
+			if callee := st.In.Common().StaticCallee(); callee != nil && samePkgBody(from.SSA, callee) {
+				fns = append(fns, callee)
+			}
+		}
+		seenFn := map[*ssa.Function]bool{}
+		for _, g := range fns {
+			if seenFn[g] {
+				continue
+			}
+			seenFn[g] = true
+			instrs(g, func(in ssa.Instruction) {
+				iff, ok := in.(*ssa.If)
+				if !ok {
+					return
+				}
+				bo, isBin := iff.Cond.(*ssa.BinOp)
+				if !isBin {
+					return
+				}
+				k, isK := bo.Y.(*ssa.Const)
+				if !isK || k.Value == nil {
+					return
+				}
+				kv, err := strconv.ParseInt(k.Value.ExactString(), 10, 64)
+				if err != nil {
+					return
+				}
+				if !c.E(bo.X).Contains(func(y *X) bool { return y.Op == "call" && (nameMatches(y.Name, "net/url.URL).Port") || nameMatches(y.Name, "strconv.Atoi") || nameMatches(y.Name, "strconv.ParseUint") || nameMatches(y.Name, "strconv.ParseInt")) }) {
+					return
+				}
+				holds := func(n int64) (bool, bool) {
+					switch bo.Op {
+					case token.LSS:
+						return n < kv, true
+					case token.LEQ:
+						return n <= kv, true
+					case token.GTR:
+						return n > kv, true
+					case token.GEQ:
+						return n >= kv, true
+					}
+					return false, false
+				}
+				// the edge that fails: leads to a return with a non-nil error (directly)
+				for i, succ := range iff.Block().Succs {
+					ret, isRet := succ.Instrs[len(succ.Instrs)-1].(*ssa.Return)
+					if !isRet || len(ret.Results) == 0 || c.RetX(ret, len(ret.Results)-1).Op == "nil" {
+						continue
+					}
+					nCmp++
+					rejected := ""
+					for _, n := range []int64{0, 65535} {
+						if h, ok := holds(n); ok && h == (i == 0) {
+							rejected = fmt.Sprint(n)
+						}
+					}
+					c.Check(rejected == "", "C20.X2-fields-covered", c.short(g.String())+" › legal ports pass the range test", iff.Pos(), "ports 0 and 65535 pass the constant bound", "the port range test turns away the legal port "+rejected+": a URL with that port no longer converts")
+				}
+			})
+		}
+		_ = nCmp
+	}
 	c.Floor("C20.X1-legacy-path-transcoder", 1)
 	c.Floor("C20.X1-escape-inverse", 3)
 
@@ -632,4 +703,51 @@ func legacyPathTranscoder(c *Ctx, rule string) {
 		}
 	})
 	c.Check(nMk == 1 && okArgs && used, rule, "maurl › legacy path protocol's transcoder", initFn.Pos(), "registered with NewTranscoderFromFunctions(own string→bytes, own bytes→string, own validator)", "the legacy httpath protocol is not registered with the package's own transcoder and validator (a library transcoder escapes the already escaped path a second time; without a validator a value with a raw slash is accepted and re-splits on the wire): old-format publisher addresses name another URL, or read back as different addresses")
+}
+
+// filterPublicFamilies: the public-address filter classifies every IP-family and DNS-family protocol code (an address
+// whose first component is of a family the filter does not know falls into its "keep" default: a zoned link-local or
+// loopback IPv6 address is then delivered although address filtering is on). Shared by C09.
+func filterPublicFamilies(c *Ctx, rule string) {
+	f := c.Func("mautil", "FilterPublic")
+	if f == nil {
+		c.Unk(rule, "mautil.FilterPublic", token.NoPos, "not found")
+		return
+	}
+	var pred *ssa.Function
+	for _, cs := range c.Calls(f.SSA, Call("go-multiaddr.FilterAddrs")) {
+		if len(cs.X.Args) == 2 {
+			if es := variadicElems(c, cs.X.Args[1]); len(es) == 1 && es[0].V != nil {
+				pred = funcValueTarget(es[0].V)
+			}
+		}
+	}
+	if pred == nil && len(f.SSA.AnonFuncs) == 1 {
+		pred = f.SSA.AnonFuncs[0]
+	}
+	if pred == nil {
+		c.Unk(rule, "mautil.FilterPublic", f.SSA.Pos(), "predicate not found")
+		return
+	}
+	code := func(name string) string {
+		v, _ := c.ConstString("github.com/multiformats/go-multiaddr", name)
+		return v
+	}
+	want := map[string]bool{}
+	for _, n := range []string{"P_IP4", "P_IP6", "P_IP6ZONE", "P_IPCIDR", "P_DNS", "P_DNS4", "P_DNS6", "P_DNSADDR"} {
+		want[code(n)] = false
+	}
+	instrs(pred, func(in ssa.Instruction) {
+		if bo, ok := in.(*ssa.BinOp); ok && bo.Op == token.EQL {
+			k := c.E(bo.Y).Name
+			if _, ok := want[k]; ok {
+				want[k] = true
+			}
+		}
+	})
+	all := true
+	for _, v := range want {
+		all = all && v
+	}
+	c.Check(all, rule, f.Name+" › protocol families", f.SSA.Pos(), "ip4, ip6, ip6zone, ipcidr and dns, dns4, dns6, dnsaddr are classified", "an IP or DNS protocol code is no longer classified by the public filter: addresses of that form are kept whatever they point to")
 }
